@@ -427,7 +427,11 @@ func (t *fnTrans) siteAfter(site string, in ssa.Instruction, cc *ssa.CallCommon,
 		func() {
 			defer func() {
 				if r := recover(); r != nil {
-					t.g.ann.errs = append(t.g.ann.errs, fmt.Sprintf("%s:%d: ghost %s: %v", gl.file, gl.line, name, r))
+					save := t.cur.reach
+					o := t.oblige("contract", fmt.Sprintf("%s:%d", gl.file, gl.line), token.NoPos, "false", fmt.Sprintf("ghost %s cannot be evaluated on this code: %v", name, r))
+					o.Trivial = false
+					o.Reach = "true"
+					t.cur.reach = save
 				}
 			}()
 			x, err := parseSpec(expr)
@@ -697,12 +701,11 @@ func (t *fnTrans) applyContract(in ssa.Instruction, fc *FuncContract, callee *ss
 	post := &evalCtx{t: t, fn: efn, st: t.cur, old: preState, binds: binds, results: results, where: full}
 	for _, en := range fc.ensures {
 		// ensures clauses that mention the callee's ghosts / locals cannot be used by callers
-		nerr := len(t.g.ann.errs)
+		t.quietSpec++
 		if term, ok := t.evalBool(post, en); ok {
 			t.assume(term)
-		} else {
-			t.g.ann.errs = t.g.ann.errs[:nerr]
 		}
+		t.quietSpec--
 	}
 	t.usedContracts[full] = true
 }
